@@ -25,6 +25,36 @@ from .record import Capture
 SCENARIOS = ["denver_demo.yaml", "denver_demo_fleets.yaml", "denver_demo_constrained_charging.yaml"]
 
 
+def _pulse_generator():
+    """a generator with state of its own: it counts the steps it has seen and, every third step,
+    recalls the idle vehicle whose turn it is; it returns an updated copy of itself every step, so a
+    run is reproduced only if every step is given the generator state the previous step returned"""
+    from dataclasses import dataclass, replace
+
+    from nrel.hive.dispatcher.instruction.instructions import RepositionInstruction
+    from nrel.hive.dispatcher.instruction_generator.instruction_generator import InstructionGenerator
+
+    @dataclass(frozen=True)
+    class Pulse(InstructionGenerator):
+        seen: int = 0
+
+        def generate_instructions(self, simulation_state, environment):
+            nxt = replace(self, seen=self.seen + 1)
+            if self.seen % 3 != 2:
+                return nxt, ()
+            idle = [v for v in simulation_state.get_vehicles() if type(v.vehicle_state).__name__ == "Idle"]
+            if not idle:
+                return nxt, ()
+            v = idle[(self.seen // 3) % len(idle)]
+            bases = simulation_state.get_bases()
+            if not bases:
+                return nxt, ()
+            b = bases[(self.seen // 3) % len(bases)]
+            return nxt, (RepositionInstruction(v.id, b.position.link_id),)
+
+    return Pulse()
+
+
 def build(variant: Dict[str, Any]):
     f = resource_filename("nrel.hive.resources.scenarios.denver_downtown", variant["yaml"])
     cfg = load_config(f)
@@ -42,7 +72,13 @@ def build(variant: Dict[str, Any]):
 
         cfg = cfg._replace(global_config=cfg.global_config._replace(log_stats=True, output_base_directory=variant["out"]),
                            scenario_output_directory=Path(variant["out"]) / "run")
-    rp = load_simulation(cfg)
+    if variant.get("pulse"):
+        from nrel.hive.dispatcher.instruction_generator.charging_fleet_manager import ChargingFleetManager
+        from nrel.hive.dispatcher.instruction_generator.dispatcher import Dispatcher
+
+        rp = load_simulation(cfg, custom_instruction_generators=(Dispatcher(cfg.dispatcher), ChargingFleetManager(cfg.dispatcher), _pulse_generator()))
+    else:
+        rp = load_simulation(cfg)
     cap = Capture()
     rp.e.reporter.add_handler(cap)
     return rp, cap
@@ -120,7 +156,7 @@ def _gen_case(rng: random.Random, k: int) -> Dict[str, Any]:
     rem = rng.choice([0, 0, 1, dt // 2, dt - 1])            # end time not always a multiple of dt away
     end = start + n * dt - rem
     variant = {"yaml": rng.choice(SCENARIOS), "lazy": rng.random() < 0.5, "start": start, "end": end, "dt": dt,
-               "timeout": rng.choice([600, 600, 120, dt])}
+               "timeout": rng.choice([600, 600, 120, dt]), "pulse": rng.random() < 0.5}
     # split of n into 2-4 calls (zero-length calls allowed)
     cuts = sorted(rng.randint(0, n) for _ in range(rng.randint(1, 3)))
     parts = [b - a for a, b in zip([0] + cuts, cuts + [n])]
@@ -185,7 +221,7 @@ def worker(args) -> Dict[str, Any]:
     for r, o in zip(recs, outs):
         steps += 4 * r["n"]
         events += r["meta"]["events"]
-        shapes.add((r["meta"]["yaml"], r["meta"]["lazy"], r["dt"], (r["stop"] - r["start"]) % r["dt"] == 0, len(r["meta"]["parts"]), 0 in r["meta"]["parts"]))
+        shapes.add((r["meta"]["yaml"], r["meta"]["lazy"], r["meta"].get("pulse"), r["dt"], (r["stop"] - r["start"]) % r["dt"] == 0, len(r["meta"]["parts"]), 0 in r["meta"]["parts"]))
         rec = {k: v for k, v in r.items()}
         if r["raised"]:
             findings.append({"id": r["id"], "kind": "mon", "record": rec, "text": [f"C15/run-stopped| {r['raised']}"]})
